@@ -9,12 +9,22 @@
     reports OK again, writes nothing, invokes no callback, and leaves the state unchanged (the only
     logged event is the refused read);
   * `C15_ok_stable`: the two together, for `cat_service` itself (mutex calls succeeding).
-  NOT proved in Lean (PARTIAL): the liveness half — "once the input is exhausted and the output
-  accepts bytes, a number of calls bounded by a linear function of table size and line length
-  reaches that state".  It is sampled by the correspondence runs (every scenario ends with a
-  drain whose length is checked against a linear bound) — see DESIGN.md.
+  * `C15_liveness` (`Proofs/Live.lean`): the liveness half.  A measure `mu D s` — an explicit expression
+    in the table size, the buffer capacities, the total number of variables and the number of
+    queued events (`C15_bound`) — is decreased by every call of `cat_service` that does not report
+    OK, provided no input byte arrives, the output accepts every byte, the mutex calls succeed, the
+    handlers give final answers (not NEXT, DATA_NEXT or HOLD) without API calls of their own, and
+    no command is held.  Hence among any `mu D s + 1` consecutive such calls one reports OK (and then
+    the state is quiescent, `C15_ok_quiescent`): no livelock, no event left behind.  The state
+    hypotheses (`Live`) hold in every state reached from `cat_init` in which no command is held
+    (`C15_reachable_live`); the descriptor hypotheses are those of C03.
+  Outside Lean: handlers that keep answering NEXT / DATA_NEXT, or keep triggering events, never let
+  the library come to rest — by design; the drain runs of the correspondence check use
+  terminating scripts and compare the number of calls with the model's.
 -/
 import CatVerif.Proofs.Quiesce
+import CatVerif.Proofs.Live
+import CatVerif.Properties.C03
 namespace Cat
 open St
 
@@ -54,6 +64,83 @@ theorem C15_ok_stable_mutex (D : Desc) (s : St) (i i' : SvcIn) (hm : D.hasMutex 
     simpa [Quiescent] using q
   rw [serviceBody_quiescent_repeat D _ i' q' hi]
   simp
+
+/-! ### liveness -/
+
+/-- **`cat_service` always gets there.**  From a state in which no command is held (`Live`), in any run
+of calls during which no input byte arrives, the output accepts every byte, the mutex calls succeed
+and the handlers give final answers, one of the first `mu D s + 1` calls reports OK. -/
+theorem C15_liveness (D : Desc) (s : St) (is : List SvcIn) (hl : Live D s) (ht : ∀ i ∈ is, TermIn i)
+    (hlen : mu D s < is.length) :
+    ∃ k, k ≤ mu D s ∧ (runSvc D s is).2[k]? = some Gen.CAT_STATUS_OK :=
+  runSvc_live D is s ht hl hlen
+
+/-- one call: OK, or strictly less left to do; the invariants are kept -/
+theorem C15_progress (D : Desc) (s : St) (i : SvcIn) (t : TermIn i) (l : Live D s) :
+    Live D (service D s i).1 ∧ ((service D s i).2 = Gen.CAT_STATUS_OK ∨ mu D (service D s i).1 < mu D s) :=
+  service_live D s i t l
+
+/-- the number of calls is bounded by a constant of the descriptor (linear in the number of
+variables and in the product of table size and command-buffer capacity — the command list prints
+every command on a line of its own) plus a constant per queued event -/
+theorem C15_bound (D : Desc) (s : St) : mu D s ≤ D.MUC + s.rcount * D.EV + FL D.unsCap + D.EV :=
+  mu_le D s
+
+/-- `runSvc` is what a history of `cat_service` calls computes -/
+theorem C15_runSvc_eq (D : Desc) : ∀ (is : List SvcIn) (s : St),
+    (runOps ⟨D, s⟩ (is.map .service)).2.map (·.1) = (runSvc D s is).2 ∧
+    (runOps ⟨D, s⟩ (is.map .service)).1 = ⟨D, (runSvc D s is).1⟩ := by
+  intro is
+  induction is with
+  | nil => intro s; simp [runOps, runSvc]
+  | cons i r ih =>
+    intro s
+    simp only [List.map_cons, runOps, runSvc, apply]
+    have := ih (service D { s with log := [] } i).1
+    exact ⟨by simp [this.1], this.2⟩
+
+/-- the hypotheses on the state hold in every state reached from `cat_init` in which no command is
+held (descriptor hypotheses as for `C03_no_out_of_bounds`) -/
+theorem C15_reachable_live (D : Desc) (buf ubuf : List Byte) (mem : List (List Byte)) (ops : List Op)
+    (hok : ∀ op ∈ ops, OpOk op) (hn : 0 < D.commandsNum) (hc : 0 < D.cap) (hd : DescOk D) (hb : D.cmdCap ≤ buf.length)
+    (hm : ∀ id, ∀ v ∈ (D.cmdD id).vars.getD [], v.dataSize ≤ (mem.getD v.slot []).length)
+    (hh : (runOps ⟨D, init D buf ubuf mem⟩ ops).1.s.state ≠ .hold) :
+    Live (runOps ⟨D, init D buf ubuf mem⟩ ops).1.D (runOps ⟨D, init D buf ubuf mem⟩ ops).1.s := by
+  have g0 : Good ⟨D, init D buf ubuf mem⟩ := by
+    refine ⟨hn, ⟨hd, ?_, init_ringInv D buf ubuf mem hc, ?_⟩,
+      ⟨⟨by simp [init], by simp [init], by simp [NeedsCmd, init], by simp [init], by simp [init]⟩,
+       ⟨by simp [NeedsUCmd, init], by simp [init], by simp [init]⟩⟩, ⟨.other ?_, .other ?_ ?_, .other ?_⟩⟩
+    · intro id v hv; simpa [init, St.slotGet] using hm id v hv
+    · simpa [BufOk, init] using hb
+    · simp [init, St.ph, CState.ph]
+    · simp [init]
+    · simp [init]
+    · simp [init, St.ph, UState.ph]
+  have g := (runOps_noOob ops ⟨D, init D buf ubuf mem⟩ hok g0).2
+  have hc' := runOps_induct (fun w => HoldCpl w.s) (fun w op ho h => apply_holdCpl w op ho h) ops ⟨D, init D buf ubuf mem⟩ hok
+    (by simp [HoldCpl, init])
+  exact ⟨g.num, g.wf, g.ub, g.oob, hc', hh⟩
+
+/-- non-vacuity: the hypotheses of the liveness theorem are met by a concrete parser and by the
+default environment of a call (no input, accepting output, handlers answering OK) -/
+example : Live exDesc (init exDesc (List.replicate 16 0) [] [[0], [0, 0]]) ∧ TermIn ({} : SvcIn) := by
+  constructor
+  · have g : Good ⟨exDesc, init exDesc (List.replicate 16 0) [] [[0], [0, 0]]⟩ := by
+      refine C03_init_good exDesc _ _ _ (by decide) (by decide) ⟨by decide, by decide, ?_⟩ (by decide) ?_
+      · intro id v hv
+        rcases exDesc_cmdD id with h | h
+        · rw [h] at hv; simp at hv
+        · subst h
+          simp [Desc.cmdD, Desc.cmd?, exDesc, exCmd, Desc.commandsNum, cmdByIndex] at hv
+          rcases hv with hv | hv <;> subst hv <;> simp [VarOk]
+      · intro id v hv
+        rcases exDesc_cmdD id with h | h
+        · rw [h] at hv; simp at hv
+        · subst h
+          simp [Desc.cmdD, Desc.cmd?, exDesc, exCmd, Desc.commandsNum, cmdByIndex] at hv
+          rcases hv with hv | hv <;> subst hv <;> simp
+    exact ⟨g.num, g.wf, g.ub, g.oob, by simp [HoldCpl, init], by simp [init]⟩
+  · exact ⟨rfl, rfl, rfl, rfl, ⟨by decide, by decide, by decide⟩, ⟨by decide, by decide, by decide⟩, rfl, rfl, rfl, rfl⟩
 
 /-- non-vacuity: the initial state of a parser is quiescent -/
 example (D : Desc) : Quiescent (init D [] [] []) := by simp [Quiescent, init, Reading]
